@@ -185,8 +185,8 @@ prop(
          "plus the timeout rule at every refresh tick and the no-residue rule after every removal; a cell = distinct (state, cause, resulting state) triple",
     sizes=tiers(16, 400, 60, 16, 40000, 900, min_evals=20000, min_cells=40),
     technique="runtime monitoring: offline automaton conformance over the boundary trace (events, states before/after, disconnects, virtual time), prove-state preservation check, timeout oracle in virtual time",
-    level_text="For generated event sequences (connect, disconnect, refresh / fetch / idle / filter ticks, time advanced to just below and above the 60 s timeout, chain growth, single message deliveries in any order, replayed / stale / unsolicited proofs, muted peers) over 1-3 peers: every state change is an edge of the documented automaton for its cause, a proof changes the prove state only while a proof request is outstanding, a last-state update never discards a prove state, a request or last state older than the timeout leads to a disconnect at the next refresh tick and no disconnect happens without such a cause, and a removed peer leaves no entry behind.",
-    level_note="timeouts of blocks-proof / blocks / transactions-proof requests are not predicted (their send times are private): a disconnect while such a request is outstanding is not judged",
+    level_text="For generated event sequences (connect, disconnect, refresh / fetch / idle / filter ticks, time advanced to just below and above the 60 s timeout, chain growth, single message deliveries in any order, replayed / stale / unsolicited proofs, muted peers) over 1-3 peers: every state change is an edge of the documented automaton for its cause, a proof changes the prove state only while a proof request is outstanding, a last-state update never discards a prove state, a request (last state, last state proof, and - in the busy scenarios with registered scripts, fetch_header / fetch_transaction calls and peers that withhold SendBlocksProof / SendBlock / SendTransactionsProof - blocks proof, blocks and transactions proof requests sent at different times) or last state older than the timeout leads to a disconnect at the next refresh tick and no disconnect happens without such a cause, and a removed peer leaves no entry behind.",
+    level_note="the send times of GetBlocksProof / GetBlocks / GetTransactionsProof requests are observed at the network boundary (virtual time of the outbound message), their existence through the pub(crate) accessors of Peer; a request whose send was not observed is not judged",
 )
 
 prop(
